@@ -8,10 +8,10 @@ pub fn prop() -> Prop {
     Prop {
         id: "C11",
         level: "model_checking",
-        rule: "all sequences S of <=5 (thorough <=7) values over a 6-value universe (three records with per-record regex patterns incl. an invalid one, a record without the selected members, a scalar, an array with a nested cell longer than 64 bytes; two records share a pattern and a split element but differ in what a macro reads besides `.`) — i.e. every concatenation A.B with |A|+|B| <= 5 (thorough 7), every permutation and every duplication — x 27 pipelines made of --set, --split-by, --filter, --select (regex functions with cache sizes 0,1,2; variables; macros; previously selected names; ^ after split; --only-objects-and-arrays) x 5 output styles (one-line, consise, pretty, text, csv) plus text with --headers; and sequences of 64, 257 and 1031 values; sequences of <=4 values mixing small records with rows of 1 KiB, 9 KiB and 20 KiB; non-trivial = S holds two values with different rows; distinct by construction",
+        rule: "all sequences S of <=5 (thorough <=7) values over a 6-value universe (three records with per-record regex patterns incl. an invalid one, a record without the selected members, a scalar, an array with a nested cell longer than 64 bytes; two records share a pattern and a split element but differ in what a macro reads besides `.`) — i.e. every concatenation A.B with |A|+|B| <= 5 (thorough 7), every permutation and every duplication — x 27 pipelines made of --set, --split-by, --filter, --select (regex functions with cache sizes 0,1,2; variables; macros; previously selected names; ^ after split; --only-objects-and-arrays) x 5 output styles (one-line, consise, pretty, text, csv) plus text with --headers; and sequences of 64, 257 and 1031 values; sequences of <=4 values mixing small records with rows of 1 KiB, 9 KiB and 20 KiB; non-trivial = S holds two values with different rows; distinct by construction; a third of the sequences of <=3 values is also delivered as files, one value per file, a repeated value being the same file named again",
         explanation: "metamorphic: out(S) must be the header (out of the empty input) followed by the bodies of out([s]) for each s in S in order; this single relation over all S implies out(A.B)=out(A).out(B), permutation and duplication",
         assumptions: COMMON_ASSUMPTIONS.to_vec(),
-        guards: vec!["row-beyond-every-buffer", "hundreds-of-records", "two-patterns-through-a-one-entry-cache", "header-printed-once", "split-produced-rows", "value-dropped-by-filter", "repeated-value"],
+        guards: vec!["values-delivered-as-files", "same-file-named-twice", "row-beyond-every-buffer", "hundreds-of-records", "two-patterns-through-a-one-entry-cache", "header-printed-once", "split-produced-rows", "value-dropped-by-filter", "repeated-value"],
         budget_s: (100, 2400),
         single_worker: false,
         run,
@@ -159,6 +159,19 @@ fn run(ctx: &mut Ctx) {
                     let mut expected = header.stdout.clone();
                     for i in &idx {
                         expected.extend_from_slice(&singles[*i].stdout[hl..]);
+                    }
+                    // the same sequence as FILES, one value per file, a repeated value being the same file named again
+                    if len <= 3 && (idx[0] + 2 * idx[len - 1] + len) % 3 == 0 {
+                        let files: Vec<(String, Vec<u8>)> = idx.iter().map(|i| (format!("v{i}.json"), input_of(&[*i]))).collect();
+                        let fcase = Case { args: args.clone(), input: crate::drive::Input::Files(files), rplan: Default::default(), wplan: Default::default() };
+                        let fgot = ctx.run(&fcase);
+                        ctx.guard("values-delivered-as-files");
+                        if idx.windows(2).any(|w| w[0] == w[1]) || (len == 3 && idx[0] == idx[2]) {
+                            ctx.guard("same-file-named-twice");
+                        }
+                        if !fgot.res.is_ok() || fgot.stdout != expected || !fgot.stderr.is_empty() {
+                            ctx.violation("output-of-a-sequence-is-not-the-concatenation-of-the-outputs-of-its-values", &format!("{sig} values delivered as files"), &[fcase.clone(), case.clone()], format!("{:?}", String::from_utf8_lossy(&expected)), fgot.brief());
+                        }
                     }
                     let distinct_bodies = idx.iter().any(|i| singles[*i].stdout[hl..] != singles[idx[0]].stdout[hl..]);
                     if distinct_bodies {
